@@ -20,6 +20,7 @@ import (
 	evpb "github.com/AliceO2Group/Control/common/protos"
 	"github.com/AliceO2Group/Control/core"
 	pb "github.com/AliceO2Group/Control/core/protos"
+	"github.com/AliceO2Group/Control/core/task"
 	"github.com/AliceO2Group/Control/core/the"
 	vrt "github.com/AliceO2Group/Control/verif_vrt"
 	"github.com/sirupsen/logrus"
@@ -280,6 +281,7 @@ type World struct {
 func NewWorld(m *Master) *World {
 	w := &World{M: m, EverOwned: map[string]string{}, EverActive: map[string]bool{}, EverInRoster: map[string]bool{}}
 	m.Observe = w.Poll
+	task.RosterAppendHookForVerif = func(id string) { w.EverInRoster[id] = true }
 	vrt.OnIdle(w.Poll)
 	w.StartCore()
 	return w
